@@ -98,11 +98,12 @@ fn op_allowed<E: EndianParse, S: std::io::Read + std::io::Seek>(f: &elf::ElfStre
             }
         }
         Q::Dynamic => {
-            if !sh.is_empty() {
-                if let Some(r) = sh.iter().find(|h| h.sh_type == 6).and_then(sec_range) {
-                    v.push(r)
-                }
-            } else if let Some(p) = ph.iter().find(|p| p.p_type == 2) {
+            // the dynamic table is designated by the SHT_DYNAMIC section and by the PT_DYNAMIC segment; WHICH of the two
+            // the lookup prefers is not C08's business (C07 compares the answer with the slice parser's)
+            if let Some(r) = sh.iter().find(|h| h.sh_type == 6).and_then(sec_range) {
+                v.push(r)
+            }
+            if let Some(p) = ph.iter().find(|p| p.p_type == 2) {
                 if let Some(e) = p.p_offset.checked_add(p.p_filesz) {
                     v.push((p.p_offset, e))
                 }
